@@ -1,6 +1,6 @@
 SPECIFICATION Spec
 CONSTANTS
   Kinds = {"ok", "dq", "poor", "dq_poor"}
-  DTypes = {"own_reporting", "own_baseline", "foreign", "foreign2", "frame"}
+  DTypes = {"own_reporting", "own_baseline", "fit_data", "foreign", "foreign2", "frame"}
   TZs = {"same", "other", "other_same_offset"}
 INVARIANTS FailClosed FitGate StorePreserves UnfittedNeverPredicts
